@@ -98,6 +98,12 @@ class Dim:
                 return self.dim(a[0], fn)
             if nm == "unwrap_or" and len(a) == 2:
                 return self.dim(a[0], fn)
+            if t[1].local or getattr(t[1], "res_local", False):
+                # a private helper: the dimension of its body with the arguments in place of the parameters
+                from . import canon
+                hs = [h for h in self.prog.resolve(t[1]) if "{closure" not in h.npath]
+                if len(hs) == 1 and hs[0].terms.ret is not None and not canon.has_unknown(hs[0].terms.ret):
+                    return self.dim(canon.subst(hs[0].terms.ret, {i + 1: x for i, x in enumerate(a)}), hs[0])
             return None
         if k in ("gamma", "phi"):
             ds = {self.dim(v, fn) for _, v in t[2]}
